@@ -305,6 +305,13 @@ def r_pow(a, b, ctx=None):
                     base = Fraction(num, den)
                     p = bn.numerator
                     return base ** p if p >= 0 else Fraction(1) / (base ** (-p))
+    if is_conc(a) and isinstance(_num(a), int) and _num(a) >= 1 and is_z3(b) and z3.is_int(b) and not MODE["log"]:
+        # integer power with a non-negative integer exponent stays an integer (python semantics); negative exponents are excluded
+        if ctx is not None and ctx.valid(b >= 0):
+            f = z3.Function("ipow", z3.IntSort(), z3.IntSort(), z3.IntSort())
+            t = f(z3.IntVal(_num(a)), b)
+            ctx._axiom("ipow", t >= 1)
+            return t
     if MODE["log"] and is_conc(a) and is_conc(b) and Fraction(_num(a)) > 0:
         from .logmono import LogVal, log_of_rational
         return LogVal(z3.simplify(log_of_rational(Fraction(_num(a))) * zr(Fraction(_num(b)))))
